@@ -484,6 +484,10 @@ class Runner:
             # It could be a detached git submodule for example.
             return True
         self.log(f'Checkout {branch_name} in {self.wrap.name}...')
+        if not os.path.exists(os.path.join(self.repo_dir, '.git')):
+            # Never run git here: it would act on a repository further up (the main project).
+            self.log('  -> Not a git repository.')
+            return False
         if self.git_checkout(branch_name, create=options.b):
             self.git_show()
             return True
